@@ -285,3 +285,33 @@ var fragments = []string{
 func genFragment(rt *rapid.T, label string) []byte {
 	return []byte(fragments[rapid.IntRange(0, len(fragments)-1).Draw(rt, label)])
 }
+
+// genBulkOp draws a write op whose payload is filler up to one of the size
+// thresholds with a few alphabet tokens near its start, middle and end:
+// the buffer then sits in (or crosses into) the size class where
+// size-dependent shortcuts apply.
+func genBulkOp(rt *rapid.T, cfg *opConfig, label string) *Op {
+	kinds := []string{"SafeString", "UnsafeString", "SafeBytes", "UnsafeBytes"}
+	if cfg.ioSide {
+		kinds = append(kinds, "Write", "WriteString")
+	}
+	alpha := textAlphabet
+	if cfg.bytesAlpha {
+		alpha = byteAlphabet
+	}
+	tok := func() []byte { return alpha[rapid.IntRange(0, len(alpha)-1).Draw(rt, label+"_bt")] }
+	size := sizeThresholds[rapid.IntRange(0, len(sizeThresholds)-1).Draw(rt, label+"_bsize")] + rapid.IntRange(-3, 3).Draw(rt, label+"_bd")
+	var out []byte
+	out = append(out, tok()...)
+	for len(out) < size/2 {
+		out = append(out, byte('a'+len(out)%5))
+	}
+	out = append(out, tok()...)
+	for len(out) < size {
+		out = append(out, byte('a'+len(out)%5))
+	}
+	for i := rapid.IntRange(0, 2).Draw(rt, label+"_btail"); i > 0; i-- {
+		out = append(out, tok()...)
+	}
+	return &Op{K: kinds[rapid.IntRange(0, len(kinds)-1).Draw(rt, label+"_bk")], S: out}
+}
